@@ -67,6 +67,105 @@ func bfsCheckT(prop, driver string, mkT func(tier string) func() Driver, quickDe
 	}
 }
 
+// part is one sub-exploration of a property that needs several alphabets.
+type part struct {
+	Driver string
+	Mk     func() Driver
+	QD, TD int
+	QC, TC int
+}
+
+// multiBfsCheck runs several explorations for one property and merges their statistics
+// into one evidence file.
+func multiBfsCheck(prop string, parts []part, extraAssume []string) {
+	Registry[prop] = &Check{
+		Run: func(tier string, seed int64) int {
+			kf := LoadFindings()
+			var total *Stats
+			code := 0
+			per := map[string]any{}
+			var mkAny func() Driver
+			var o Options
+			for _, p := range parts {
+				o = Options{Property: prop, Tier: tier, Seed: seed, Workers: Workers(), Depth: p.QD, ConfCap: p.QC, Deadline: 8 * time.Minute}
+				if tier == "thorough" {
+					o.Depth, o.ConfCap, o.Deadline = p.TD, p.TC, 60*time.Minute
+				}
+				o.Params = map[string]any{"depth": o.Depth, "tier": tier, "part": p.Driver}
+				st := Explore(p.Mk, o, kf)
+				Conformance(p.Mk, st, o)
+				per[p.Driver] = map[string]any{"states": st.States, "transitions": st.Transitions, "completed_depth": st.CompletedDepth, "exhaustive": st.Exhaustive, "conformance": st.ConfValidated}
+				if len(st.Violations) > 0 {
+					// report this part on its own so that the replay file names its driver
+					return Finish(p.Mk, p.Driver, st, o, map[string]any{"parts": per}, extraAssume)
+				}
+				total = mergeStats(total, st)
+				mkAny = p.Mk
+			}
+			o.Params = map[string]any{"tier": tier}
+			if c := Finish(mkAny, "multi", total, o, map[string]any{"parts": per}, extraAssume); c != 0 {
+				code = c
+			}
+			return code
+		},
+		Replay: func(rf *ReplayFile) int {
+			for _, p := range parts {
+				if p.Driver == rf.Driver {
+					v, names := ReplayOps(p.Mk, rf.Ops)
+					for i, n := range names {
+						fmt.Printf("  %2d. %s\n", i+1, n)
+					}
+					if v == nil {
+						fmt.Printf("replay of %s: the operation list runs without a violation on this tree\n", rf.Property)
+						return 0
+					}
+					fmt.Printf("replay of %s: %s\n", rf.Property, v.String())
+					fmt.Printf("VIOLATION property=%s replay=%s\n", rf.Property, os.Getenv("VERIF_REPLAY_PATH"))
+					return 1
+				}
+			}
+			hpanic("replay: unknown driver %s", rf.Driver)
+			return 2
+		},
+	}
+}
+
+func mergeStats(a, b *Stats) *Stats {
+	if a == nil {
+		return b
+	}
+	a.States += b.States
+	a.Transitions += b.Transitions
+	a.Changed += b.Changed
+	a.NewChanged += b.NewChanged
+	for k, v := range b.Outcomes {
+		a.Outcomes[k] += v
+	}
+	for k, v := range b.PerOpOK {
+		a.PerOpOK[k] += v
+	}
+	for k, v := range b.PerOpTried {
+		a.PerOpTried[k] += v
+	}
+	for k, v := range b.Known {
+		a.Known[k] += v
+		if a.KnownExample[k] == nil {
+			a.KnownExample[k] = b.KnownExample[k]
+		}
+	}
+	if b.CompletedDepth < a.CompletedDepth {
+		a.CompletedDepth = b.CompletedDepth
+	}
+	a.Exhaustive = a.Exhaustive && b.Exhaustive
+	a.DeadlineHit = a.DeadlineHit || b.DeadlineHit
+	a.Pruned += b.Pruned
+	a.Elapsed += b.Elapsed
+	a.Samples = append(a.Samples, b.Samples...)
+	a.ConfValidated += b.ConfValidated
+	a.Frontier = append(a.Frontier, b.Frontier...)
+	return a
+}
+
 func LoadReplay(path string) *ReplayFile {
 	b, err := os.ReadFile(path)
 	if err != nil {
@@ -85,6 +184,12 @@ func init() {
 	bfsCheck("C04", "container-registry", func() Driver { return NewCntDriver() }, 5, 7, 120, 1000, nil)
 	bfsCheck("C06", "netmap-tick", func() Driver { return NewTickDriver("C06") }, 5, 7, 120, 1000, nil)
 	bfsCheck("C07", "netmap-candidates", func() Driver { return NewTickDriver("C07") }, 12, 12, 120, 1000, nil)
+	bfsCheck("C10", "nns-lifecycle", func() Driver { return NewNNSDriver("C10") }, 4, 6, 120, 1000, nil)
+	bfsCheck("C11", "nns-auth", func() Driver { return NewNNSDriver("C11") }, 3, 5, 120, 1000, nil)
+	multiBfsCheck("C12", []part{
+		{"nns-records", func() Driver { return NewNNSDriver("C12r") }, 3, 5, 80, 600},
+		{"nns-cname", func() Driver { return NewNNSDriver("C12c") }, 5, 16, 80, 600},
+	}, nil)
 	bfsCheckT("C08", "netmap-history", func(tier string) func() Driver {
 		if tier == "thorough" {
 			return func() Driver { return NewSnapDriver([]int{0, 1, 2, 3, 4, 5, 6, 7, 8, 9, 10, 11, 12}, 30, 2) }
